@@ -214,7 +214,7 @@ func RunSymHs(x *Ctx) {
 	ec := NewConn()
 	x.feed(ec, rng, in)
 	ecall := x.startSym(c.T, c.Role, ec)
-	good := x.FinishHandshake(ec, ecall, HsOpts{ConsumedBound: symHsBound(c.T), ClosesOnFail: c.Role == "client",
+	good := x.FinishHandshake(ec, ecall, HsOpts{ConsumedBound: symHsBound(c.T), ClosesOnFail: c.Role == "client", Kind: "plain",
 		ExpectSuccess: isValid && c.Cut != "reset"})
 	x.R.Count(c.Prefix()+"/outcome", x.Outcome)
 	x.R.Sample(3, map[string]interface{}{"case": c.Key(), "input": desc, "outcome": x.Outcome, "log": LogSummary(ec.Log())})
